@@ -134,8 +134,8 @@ func (c *Ctx) c09WriteCopies(b BK) {
 					continue
 				}
 				n++
-				if ent.Kind != pw.KAlloc || !isFreshCopyOf(p.Events, ent.Fields["K"], key) {
-					r.Bad("R09.2", b.Name+".Write", "stored-key-not-copy", c.Pos(ev.Pos), "the stored entry's K is not a private copy of the key parameter: "+fmt.Sprint(ent.Fields["K"]), shortTrace(p))
+				if ent.Kind != pw.KAlloc || !isFreshCopyOf(p.Events, p.FieldOf(ent, "K"), key) {
+					r.Bad("R09.2", b.Name+".Write", "stored-key-not-copy", c.Pos(ev.Pos), "the stored entry's K is not a private copy of the key parameter: "+fmt.Sprint(p.FieldOf(ent, "K")), shortTrace(p))
 					bad = true
 				}
 			}
